@@ -17,7 +17,7 @@ func tokHistories(rec *mon.Recorder, n int, tune func(i int, c *world.TokCfg), m
 			cfg.NChains = 4
 		}
 		tune(i, &cfg)
-		net := world.NewTokNetwork(mon.Seed()*6007+int64(i), rng, cfg.NChains)
+		net := world.NewTokNetworkMissing(mon.Seed()*6007+int64(i), rng, cfg.NChains, cfg.MissingClients)
 		w := world.New(fmt.Sprintf("tok%d", i), net, rng)
 		w.Monitors = monitors()
 		sim := &world.TokSim{W: w, Cfg: cfg, Rng: rng}
@@ -33,6 +33,9 @@ func TestC04(t *testing.T) {
 	tokHistories(rec, mon.Scale(48, 1500), func(i int, c *world.TokCfg) {
 		c.MT = false
 		c.Hostile = []int{0, 1, 0, 2}[i%4]
+		if i%3 == 2 { // some one-directional clients are missing
+			c.MissingClients = 1 + i%2
+		}
 	}, func() []world.Monitor { return []world.Monitor{&props.C04{R: rec}} })
 	setExit(rec.Finish())
 }
@@ -42,7 +45,12 @@ func TestC05(t *testing.T) {
 		"seeded histories on 3-4 fully connected chains: users issue MT classes, mint amounts from {1,2,2^32,2^63-1,2^63,2^64-2,2^64-1,...}, mint more (up to and over the 64-bit limit), split holdings locally, burn, and send partial amounts (originals and vouchers, incl. more than owned) over direct and relayed routes to good and malformed receivers, honest relayer in random order; "+
 			"after every step the three conservation equations are evaluated with big integers on the real balances and supplies of all chains. distinct = distinct (event kind, direction, amount bit length, lineage shape) tuples")
 	rec.Require("mt-native-mints", "mt-sends", "mt-deliveries", "mt-refunds")
-	tokHistories(rec, mon.Scale(48, 1500), func(i int, c *world.TokCfg) { c.NFT = false },
+	tokHistories(rec, mon.Scale(48, 1500), func(i int, c *world.TokCfg) {
+		c.NFT = false
+		if i%3 == 2 { // some one-directional clients are missing
+			c.MissingClients = 1 + i%2
+		}
+	},
 		func() []world.Monitor { return []world.Monitor{&props.C05{R: rec}} })
 	setExit(rec.Finish())
 }
